@@ -300,6 +300,34 @@ class CFG(object):
     def normal_exits_from(self, src, avoid=(), follow_exc=False):
         return self.exit.id in self.reach([src], avoid=avoid, follow_exc=follow_exc)
 
+    def control_deps(self, nid):
+        """Branch nodes (test/for) whose outcome decides whether node `nid`
+        executes, w.r.t. normal completion: [(branch node, label)]."""
+        out = []
+        back = self._reaching_to(nid)
+        for t in self.nodes:
+            if t.kind not in ("test", "for") or t.id == nid or t.id not in back:
+                continue
+            if not self.normal_exits_from(t.id, avoid=[nid]):
+                continue  # nid post-dominates t
+            for a, lab in self.succ[t.id]:
+                if lab == ("exc",):
+                    continue
+                if a == nid or (a in back and not self.normal_exits_from(a, avoid=[nid]) and a != self.exit.id):
+                    out.append((t, lab))
+        return out
+
+    def _reaching_to(self, nid):
+        seen = set()
+        stack = [nid]
+        while stack:
+            x = stack.pop()
+            for p, lab in self.pred[x]:
+                if p not in seen:
+                    seen.add(p)
+                    stack.append(p)
+        return seen
+
     def paths(self, src, dst, max_paths=20000, unroll=1, follow_exc=True):
         """All paths src..dst visiting each node at most unroll+1 times."""
         out = []
